@@ -161,6 +161,16 @@ def by_fid_name(methods, name: str) -> int:
     return next(m["filter_id"] for m in methods if m["name"] == name)
 
 
+def _arch_write(c: ast.Call):
+    """(handle, operand) of a write of one block to the archive: `fp.write(x)`, or `write_pieces(fp, x)` (helpers: the same bytes, handed to a
+    multi-volume file a volume at a time)"""
+    if isinstance(c.func, ast.Attribute) and c.func.attr == "write" and len(c.args) == 1:
+        return norm(c.func.value), norm(c.args[0])
+    if (dotted(c.func) or "").split(".")[-1] == "write_pieces" and len(c.args) == 2:
+        return norm(c.args[0]), norm(c.args[1])
+    return None
+
+
 def r01_2(ctx: Ctx) -> None:
     # ---- SevenZipCompressor.compress -----------------------------------------------------
     f = ctx.prog.func("compressor", "SevenZipCompressor.compress")
@@ -185,8 +195,8 @@ def r01_2(ctx: Ctx) -> None:
     ctx.check(ok, "R01.2", f, ch, "per-stage unpack size counts the stage's INPUT", "per-stage unpack sizes are not advanced by the length of the stage's input", construct="stage unpack size")
     post = lp.body[lp.body.index(ch) + 1:]
     post_src = [norm(s) for s in post]
-    wr = [c for s in post for c in ast.walk(s) if isinstance(c, ast.Call) and attr_tail(c) == "write"]
-    ok = len(wr) == 1 and norm(wr[0].func.value) == dst and norm(wr[0].args[0]) == var
+    wr = [c for s in post for c in ast.walk(s) if isinstance(c, ast.Call) and _arch_write(c) is not None]
+    ok = len(wr) == 1 and _arch_write(wr[0]) == (dst, var)
     ctx.check(ok, "R01.2", f, wr[0] if wr else lp, "only the last stage's output is written to the archive", "the block written to the archive is not the output of the last stage", construct="archive write operand")
     ps = [s for s in post if isinstance(s, ast.AugAssign) and norm(s.target) == "self.packsize" and norm(s.value) == f"len({var})"]
     dg = [s for s in post if isinstance(s, ast.Assign) and norm(s.targets[0]) == "self.digest" and isinstance(s.value, ast.Call) and attr_tail(s.value) == "calculate_crc32"
@@ -226,8 +236,8 @@ def r01_2(ctx: Ctx) -> None:
     ctx.check(ok, "R01.2", g, carry, "flush: a stage with nothing carried is still flushed", "flush(): a stage with no carried data is not flushed", construct="flush empty arm")
     ok = any(isinstance(s, ast.AugAssign) and "_unpacksizes" in norm(s.target) and norm(s.value) == f"len({v})" for s in carry.body)
     ctx.check(ok, "R01.2", g, carry, "flush: carried tail counted in the stage's unpack size", "flush(): the carried tail is not added to the stage's unpack size", construct="flush unpack size")
-    wr = [c for c in q.calls(g) if attr_tail(c) == "write"]
-    ok = len(wr) == 1 and norm(wr[0].args[0]) == v and norm(wr[0].func.value) == g.params[1] and not q.enclosing_loops(g, wr[0])
+    wr = [c for c in q.calls(g) if _arch_write(c) is not None]
+    ok = len(wr) == 1 and _arch_write(wr[0]) == (g.params[1], v) and not q.enclosing_loops(g, wr[0])
     src_all = [norm(s) for s in g.node.body]
     ok = ok and f"self.packsize += len({v})" in src_all and f"self.digest = calculate_crc32({v}, self.digest)" in src_all
     ctx.check(ok, "R01.2", g, wr[0] if wr else g.node, "flush: last stage's tail written once and accounted", "flush(): the final tail is not written once to the archive and added to packsize/digest", construct="flush write")
@@ -332,7 +342,8 @@ def r01_6(ctx: Ctx) -> None:
                       "(e.g. a drive-like prefix 'c:' is stripped and two members collide)")
     mk = shared.szf(ctx, "_make_file_info_from_name")
     st = [n for n in walk(mk.node) if isinstance(n, ast.Assign) and isinstance(n.targets[0], ast.Subscript) and isinstance(n.targets[0].slice, ast.Constant) and n.targets[0].slice.value == "filename"]
-    ok = len(st) == 1 and norm(st[0].value) in ("pathlib.Path(arcname).as_posix()", "arcname")
+    # the given name, in pathlib's POSIX form - with or without the backslash -> '/' translation that makes it the name every reader lists (R07.17c)
+    ok = len(st) == 1 and norm(st[0].value).replace(".replace('\\\\', '/')", "") in ("pathlib.Path(arcname).as_posix()", "arcname")
     ctx.check(ok, "R01.6", mk, st[0] if st else mk.node, "stored name = pathlib-normalised POSIX form of the given name", "the stored name is not pathlib.Path(arcname).as_posix()")
 
 
@@ -440,7 +451,78 @@ def r01_11(ctx: Ctx) -> None:
               "the test 'more data is outstanding' is wrong from the second piece on", construct="fed count")
 
 
+def r01_12(ctx: Ctx) -> None:
+    """library contract of pyppmd's encoder, found by round-tripping (no test of the suite packs hardly compressible data with PPMd): one
+    `encode()` call that crosses an output block of the library loses a byte of packed data; the stream py7zr writes is then a byte short
+    and cannot be read back (3 of 10 random 200 kB members).  PpmdCompressor.compress therefore feeds the encoder bounded slices in a loop -
+    it never passes its whole argument (up to a 1 MiB block) to `encode` in one call."""
+    c = ctx.prog.cls("PpmdCompressor", "compressor")
+    f = ctx.prog.method(c, "compress")
+    ctx.need(f is not None, "PpmdCompressor.compress vanished")
+    enc = [x for x in q.calls(f) if attr_tail(x) == "encode"]
+    ctx.floor("R01.12", len(enc), 1, "encoder calls in PpmdCompressor.compress")
+    p0 = f.params[1]
+    for x in enc:
+        arg = x.args[0] if x.args else None
+        sliced = isinstance(arg, ast.Subscript) and isinstance(arg.slice, ast.Slice) and arg.slice.upper is not None and bool(q.enclosing_loops(f, x))
+        whole = isinstance(arg, ast.Name) and arg.id == p0
+        ctx.check(sliced and not whole, "R01.12", f, x, "the PPMd encoder is fed bounded slices",
+                  f"`{norm(x)}` hands the encoder the whole block in one call: pyppmd drops a byte of output where a call crosses one of its output blocks, the packed stream of hardly "
+                  "compressible data comes out one byte short and the archive py7zr wrote cannot be read back ('Corrupted input data', CrcError or a crash)", construct="PPMd encode whole block")
+
+
+def r01_13(ctx: Ctx) -> None:
+    """'whatever the volume size': multivolumefile's write() calls itself once per volume a block crosses (RecursionError beyond about a thousand) -
+    a library contract found by the hunts.  The two places that write a packed BLOCK (SevenZipCompressor.compress / flush; up to about 1 MiB)
+    go through helpers.write_pieces, which hands such a file at most one volume per call and writes every byte exactly once."""
+    for qual in ("SevenZipCompressor.compress", "SevenZipCompressor.flush"):
+        f = ctx.prog.func("compressor", qual)
+        raw = [c for c in q.calls(f) if isinstance(c.func, ast.Attribute) and c.func.attr == "write" and norm(c.func.value) == f.params[-1 if qual.endswith("flush") else 2]]
+        via = [c for c in q.calls(f) if (dotted(c.func) or "").split(".")[-1] == "write_pieces"]
+        ctx.check(bool(via) and not raw, "R01.13", f, (raw or via or [f.node])[0], f"{qual} writes its block through write_pieces",
+                  f"{qual} writes a packed block of up to about 1 MiB to the archive handle in one `write()`: on a multivolumefile.MultiVolume with small volumes (64-byte volumes and 70 kB of "
+                  "data; 1 KiB volumes and 1.2 MB) the library recurses once per volume crossed and the session dies with RecursionError", construct=f"{qual} raw block write")
+    w = ctx.prog.module("helpers").funcs.get("write_pieces")
+    if w is None:
+        return  # reported above: the blocks are written raw
+    loops = [l for l in walk(w.node) if isinstance(l, ast.For)]
+    ok = False
+    for l in loops:
+        it = l.iter
+        if isinstance(it, ast.Call) and dotted(it.func) == "range" and len(it.args) == 3 and norm(it.args[0]) == "0" and norm(it.args[1]).startswith("len(") and isinstance(l.target, ast.Name):
+            step, i = norm(it.args[2]), l.target.id
+            wr = [c for c in ast.walk(l) if isinstance(c, ast.Call) and attr_tail(c) == "write" and c.args and isinstance(c.args[0], ast.Subscript) and isinstance(c.args[0].slice, ast.Slice)]
+            ok = any(norm(c.args[0].slice.lower) == i and norm(c.args[0].slice.upper).replace(" ", "") in (f"{i}+{step}", f"{step}+{i}") for c in wr)
+    plain = [c for c in q.calls(w) if attr_tail(c) == "write" and c.args and isinstance(c.args[0], ast.Name) and not q.enclosing_loops(w, c)]
+    ctx.check(ok and bool(plain), "R01.13", w, w.node, "write_pieces writes every byte once: consecutive slices of one step, or the block as it is",
+              "helpers.write_pieces does not write `data[i:i+step]` for i = 0, step, 2*step ... (or the whole block when no slicing is needed): bytes of the packed stream are lost or doubled",
+              construct="write_pieces slices")
+
+
+def r01_14(ctx: Ctx) -> None:
+    """'whatever the internal block size': the PPMd wrapper feeds the decoder an artificial NUL when it is handed an EMPTY piece while the decoder
+    wants input - its way to finish a stream whose last byte the range coder still needs.  An empty piece is not the end of the input, though: the
+    7zAES stage in front returns b"" while it collects a cipher block, and with an I/O block below pyppmd's 5-byte preamble the first pieces are
+    too short.  Necessary condition: the NUL is fed only under a fact that says the INPUT HAS ENDED (a parameter or attribute about the end of the
+    input), not merely `len(data) == 0 and needs_input`."""
+    c = ctx.prog.cls("PpmdDecompressor", "compressor")
+    f = ctx.prog.method(c, "decompress")
+    ctx.need(f is not None, "PpmdDecompressor.decompress vanished")
+    nul = [x for x in q.calls(f) if attr_tail(x) == "decode" and x.args and isinstance(x.args[0], ast.Constant) and x.args[0].value == b"\0"]
+    ctx.floor("R01.14", len(nul), 1, "artificial NUL fed to the PPMd decoder")
+    for x in nul:
+        facts = q.facts_at(f, x)
+        knows_end = any(any(w in norm(cd).lower() for w in ("eof", "last", "final", "exhaust", "end_of", "finish", "remaining")) for cd, pol in facts)
+        ctx.check(knows_end, "R01.14", f, x, "the artificial NUL is fed only when the input has ended",
+                  "PpmdDecompressor.decompress takes every empty piece for the end of the input (`" + " and ".join(norm(cd) for cd, pol in facts) + "`) and feeds the decoder a made-up NUL: behind "
+                  "7zAES (which returns b'' while it collects a cipher block) with an I/O block of 1..15 bytes, or alone with 1..4, members cannot be read back ('Not enough data for starting "
+                  "decompression')", construct="ppmd empty piece taken for end of input")
+
+
 def run(ctx: Ctx) -> None:
+    r01_14(ctx)
+    r01_13(ctx)
+    r01_12(ctx)
     r01_11(ctx)
     r01_10(ctx)
     shared.layout_agreement(ctx, "R01.9")
